@@ -90,7 +90,7 @@ class Context:
 
     def feasible(self, extra):
         s = z3.Solver()
-        s.set('timeout', 2000)
+        s.set('timeout', getattr(self, 'feasible_timeout_ms', 2000))     # `unknown` counts as feasible (sound: a spurious path only adds vacuous obligations)
         for h in self.all_hyps():
             s.add(h)
         s.add(extra)
